@@ -54,14 +54,15 @@ const (
 	st10Kinds
 )
 
-//verif:bounds 2 connections over one poller and its slot cache; 1 fetched event for A; close by user or hang-up; batch end before/after B opens; 6 kinds of stale call; descriptor number of B equal to A's or different
-//verif:param 0 23
+//verif:bounds 2 connections over one poller and its slot cache; 1 fetched event for A; close by user, by hang-up, or by user while A's fetched hang-up is still queued for delivery; batch end before/after B opens; free slot chain empty or not; 6 kinds of stale call; descriptor number of B equal to A's or different
+//verif:param 0 71
 //verif:loop 40
 //verif:replay interp
 func verifHarness_C10_reuse(param int) {
 	stale := param % st10Kinds
-	closeByHup := (param/st10Kinds)%2 == 1
-	freeFirst := (param/st10Kinds/2)%2 == 1
+	closeMode := (param / st10Kinds) % 3 // 0 user, 1 hang-up delivered, 2 hang-up fetched, user closes, delivery pending
+	freeFirst := (param/st10Kinds/3)%2 == 1
+	exhausted := (param/st10Kinds/6)%2 == 1
 	verifK = &verifKMon{}
 	verifB = &verifBMon{}
 	runner_RunTask_set()
@@ -76,8 +77,13 @@ func verifHarness_C10_reuse(param int) {
 	events := make([]epollevent, 1)
 	events[0].events = 0x1
 	p.setOperator(unsafe.Pointer(&events[0].data), opA)
+	if exhausted {
+		// every other slot of the cache block is owned by some other connection
+		p.opcache.first = nil
+	}
 	// A goes away
-	if closeByHup {
+	switch closeMode {
+	case 1:
 		if opA.do() {
 			p.appendHup(opA)
 		}
@@ -85,10 +91,20 @@ func verifHarness_C10_reuse(param int) {
 		for verifRunPending() {
 		}
 		a.Close()
-	} else {
+	case 0:
 		a.Close()
+	case 2:
+		// the poller has fetched A's hang-up and queued it; the user closes A before the
+		// delivery goroutine (started at the end of the batch) has run
+		if opA.do() {
+			p.appendHup(opA)
+		}
+		a.Close()
+		p.onhups()
 	}
-	for verifRunPending() {
+	if closeMode != 2 {
+		for verifRunPending() {
+		}
 	}
 	verifAssert(opA.isUnused(), "C10/closed-connection-keeps-its-slot")
 	if freeFirst {
